@@ -239,7 +239,9 @@ func genGuards(p *pkgInfo) string {
 		}
 		b.WriteString("Definition " + n[1] + " : Z := " + gexpr(p, v, nil) + ".\n")
 	}
-	b.WriteString("Definition gen_val_max_failures : Z := " + intAssign(p, vl, "maxFailures") + ".\n\n")
+	b.WriteString("Definition gen_val_max_failures : Z := " + intAssign(p, vl, "maxFailures") + ".\n")
+	// the time-out of one validation read, as a function of the heartbeat interval
+	b.WriteString("Definition gen_val_read_timeout (H : Z) : Z := " + clamped(p, vl, "validationTimeout", hv, token.DEFINE) + ".\n\n")
 
 	vr := p.fn("kvElection.verifyLeadershipAfterReconnect")
 	b.WriteString("(* " + p.pos(vr) + " *)\n")
